@@ -26,6 +26,7 @@ type metaTrace struct {
 	B     any    `json:"b"`
 	Shape []int  `json:"shape"`
 	Long  int    `json:"long"` // 1: input longer than 600 bytes, x and tx are not shipped
+	Rep   int    `json:"rep"`  // pad relation: the prefix is arg written rep times (rep > 1: tx is not shipped)
 }
 
 type metaReplay struct {
@@ -254,6 +255,8 @@ func cmdMeta(args []string) *Result {
 	}
 	doC14 := func(x []byte, rel string, pad []byte) {
 		var tx []byte
+		limited := false
+		rep := 1
 		switch rel {
 		case "crlf":
 			if bytes.IndexByte(x, '\r') >= 0 {
@@ -265,11 +268,22 @@ func cmdMeta(args []string) *Result {
 				return
 			}
 			tx = bytes.ReplaceAll(x, []byte("\n"), []byte("\r"))
-		case "pad":
+		case "pad", "padlim":
 			if len(pad) > 0 && pad[len(pad)-1] == '\r' && len(x) > 0 && x[0] == '\n' {
 				return // CR + LF would fuse into one line ending: not "prepending blank lines"
 			}
-			tx = append(append([]byte(nil), pad...), x...)
+			if rel == "padlim" {
+				// many blank lines in front of a small document, read block by block with a small buffer limit (hook SetVerifLimits):
+				// blank lines between blocks are dropped as they are read, so however many there are they never make a block too large
+				if len(x) > 80 || len(pad) == 0 || (pad[len(pad)-1] != '\n' && pad[len(pad)-1] != '\r') || (pad[len(pad)-1] == '\r' && pad[0] == '\n') {
+					return
+				}
+				if len(pad) < 100 {
+					rep = 600/len(pad) + 1
+				}
+				limited = true
+			}
+			tx = append(bytes.Repeat(pad, rep), x...)
 		case "final":
 			if len(x) > 0 && (x[len(x)-1] == '\n' || x[len(x)-1] == '\r') {
 				return
@@ -278,22 +292,41 @@ func cmdMeta(args []string) *Result {
 		}
 		res.Evaluations++
 		rp := &metaReplay{Kind: "meta", Rel: rel, Input: ints(x), Pad: ints(pad)}
-		t := &metaTrace{Rel: rel, X: ints(x), TX: ints(tx), Arg: ints(pad), Shape: []int{}}
+		if limited {
+			rel = "pad" // the relation TLC checks is the padding relation; the replay record keeps the route
+		}
+		t := &metaTrace{Rel: rel, X: ints(x), TX: ints(tx), Arg: ints(pad), Shape: []int{}, Rep: rep}
+		if rep > 1 {
+			t.TX = []int{}
+		}
 		pm := guard(func() {
 			ba, ra := commonmark.Parse(append([]byte(nil), x...))
 			// the transformed input is parsed through the streaming entry point on every other input, over a reader
 			// whose reads end right after each carriage return (CRLF split across reads, a lone CR with nothing behind it yet)
 			var bb []*commonmark.RootBlock
 			var rb commonmark.ReferenceMap
-			if len(x)%2 == 1 && bytes.IndexByte(tx, '\r') >= 0 {
+			if limited {
+				commonmark.SetVerifLimits(16, 256)
+				bb, rb, _ = streamParseFrom(&lineReader{data: append([]byte(nil), tx...), fixed: 7})
+				commonmark.SetVerifLimits(0, 0)
+			} else if len(x)%2 == 1 && bytes.IndexByte(tx, '\r') >= 0 {
 				bb, rb, _ = streamParseEdgy(append([]byte(nil), tx...))
 			} else {
 				bb, rb = commonmark.Parse(append([]byte(nil), tx...))
 			}
 			switch rel {
 			case "crlf", "cr":
-				t.A = htmlIDs(ba, ra, eolNorm, false)
-				t.B = htmlIDs(bb, rb, eolNorm, false)
+				// x has LF endings only, so every CR in the output of the transformed input was copied from a line ending: each
+				// copied line ending is mapped back to ONE LF (CRLF style: the pair; CR style: the byte) and nothing is collapsed -
+				// a line ending too many or too few (a soft break behind a hard break, say) is a difference
+				t.A = htmlIDs(ba, ra, ident, false)
+				if rel == "crlf" {
+					t.B = htmlIDs(bb, rb, func(h string) string {
+						return strings.ReplaceAll(strings.ReplaceAll(h, "\r\n", "\n"), "\r", "\n")
+					}, false)
+				} else {
+					t.B = htmlIDs(bb, rb, func(h string) string { return strings.ReplaceAll(h, "\r", "\n") }, false)
+				}
 			case "final":
 				t.A = htmlIDs(ba, ra, normFinal, true)
 				t.B = htmlIDs(bb, rb, normFinal, true)
@@ -450,6 +483,7 @@ func cmdMeta(args []string) *Result {
 			doC14(x, "final", nil)
 			k++
 			doC14(x, "pad", pads[k%len(pads)])
+			doC14(x, "padlim", pads[(k+3)%len(pads)])
 			if thorough {
 				doC14(x, "pad", pads[(k+1)%len(pads)])
 				doC14(x, "pad", pads[(k+2)%len(pads)])
